@@ -4,6 +4,7 @@ import (
 	"encoding/base64"
 	"fmt"
 	"net/url"
+	"strings"
 	"sync/atomic"
 	"time"
 
@@ -324,6 +325,7 @@ func C10(c *run.Ctx) {
 								c.Unspecified(effWhy)
 							case 0:
 								c.Count("c10_rejected", 1)
+								c10Wire(c, ep, effWhy, out, hist)
 								if processed {
 									c.Violate(run.Violation{Kind: "unauthenticated-request-processed", Key: fmt.Sprintf("unauthenticated-request-processed %s endpoint=%s", effWhy, ep), Detail: "request processed although the decision function says reject: " + effWhy, History: hist})
 								} else if out.ErrName != "invalid_client" && out.ErrName != "invalid_request" {
@@ -551,6 +553,7 @@ func c10UsedAssertions(c *run.Ctx) {
 						c.Unspecified("client-assertion-" + tc.name + "-accepted")
 					default:
 						c.Count("c10_rejected", 1)
+						c10Wire(c, ep, "client-assertion-"+tc.name, out, h)
 						if out.ErrName != "invalid_client" && out.ErrName != "invalid_request" && !(ep == "introspect" && out.ErrName == "request_unauthorized") {
 							c.Violate(run.Violation{Kind: "rejection-class", Key: fmt.Sprintf("rejection-class client-assertion-%s endpoint=%s got=%s", tc.name, ep, out.ErrName),
 								Detail: "a request whose client assertion is out of its time was answered " + out.ErrName + ": " + world.ErrDetail(out.Err), History: h})
@@ -573,6 +576,7 @@ func c10UsedAssertions(c *run.Ctx) {
 						c.Violate(run.Violation{Kind: "unauthenticated-request-processed", Key: "unauthenticated-request-processed used-client-assertion endpoint=" + ep,
 							Detail: "a client assertion that had already been accepted once authenticated a request again", History: h})
 					}
+					c10Wire(c, ep, "used-client-assertion", out, h)
 					if d := world.DigestDiff(before, w.Store.Digest()); len(d) > 0 && out.Err != nil {
 						c.Violate(run.Violation{Kind: "rejected-request-changed-state", Key: "rejected-request-changed-state used-client-assertion endpoint=" + ep, Detail: fmt.Sprint(d), History: h})
 					}
@@ -582,6 +586,22 @@ func c10UsedAssertions(c *run.Ctx) {
 				c.Violate(run.Violation{Kind: "rejected-request-changed-state", Key: "rejected-request-changed-state used-client-assertion revoked a token", Detail: "the token named in the replayed revocation requests is no longer active", History: hist})
 			}
 		}
+	}
+}
+
+// c10Wire: a request the library refused has to be refused on the wire too - the response written for it is an error response
+// (status >= 400, or for introspection a body without active=true), never one the caller reads as success.
+func c10Wire(c *run.Ctx, ep, why string, out *world.Out, hist []string) {
+	if out == nil || out.Err == nil || out.Crashed || out.Status == 0 {
+		return
+	}
+	c.Count("c10_refusals_seen_on_the_wire", 1)
+	if out.Status/100 == 2 {
+		if act, _ := out.JSON["active"].(bool); strings.HasPrefix(ep, "introspect") && !act {
+			return
+		}
+		c.Violate(run.Violation{Kind: "rejection-class", Key: fmt.Sprintf("rejection-class refusal written as success endpoint=%s (%s) err=%s", ep, why, out.ErrName),
+			Detail: fmt.Sprintf("the library refused the request (%s) but the response written for it is HTTP %d %q", world.ErrDetail(out.Err), out.Status, out.Body), History: hist})
 	}
 }
 
